@@ -241,15 +241,22 @@ func uniformArgSubst(c *core.Ctx, fn *ssa.Function) func(string) string {
 				}
 			}
 			if same && arg != "" && !strings.HasPrefix(arg, "p:") {
+				if i == 0 && root.Signature.Recv() != nil {
+					// a method of a small value built by its one caller (`w := connWriter{conn, opt.SendTimeout}; w.ping(ctx)`)
+					if strings.HasPrefix(arg, "lit{") || strings.HasPrefix(arg, "&lit{") {
+						bind["recv"] = arg
+					}
+					continue
+				}
 				bind["p:"+p.Name()] = arg
 			}
 		}
 	}
 	return func(s string) string {
 		for k, v := range bind {
-			s = regexp.MustCompile(regexp.QuoteMeta(k)+`\b`).ReplaceAllString(s, strings.ReplaceAll(v, "$", "$$"))
+			s = regexp.MustCompile(`\b`+regexp.QuoteMeta(k)+`\b`).ReplaceAllString(s, strings.ReplaceAll(v, "$", "$$"))
 		}
-		return s
+		return an.SimplifyLitFields(s)
 	}
 }
 
@@ -270,7 +277,7 @@ type deadlineCase struct {
 func deadlineCases(fn *ssa.Function, v ssa.Value, p an.Path, at *ssa.BasicBlock, in *ssa.CallCommon, depth int, subst func(string) string) []deadlineCase {
 	pathOf := func(x ssa.Value) string {
 		if in != nil {
-			return an.PathOfIn(x, in)
+			return subst(an.PathOfIn(x, in))
 		}
 		return subst(an.PathOf(x))
 	}
